@@ -139,6 +139,16 @@ def finish(ctx):
     ctx.require('labile.zero', 5, 'compounds without labile hydrogen must be covered')
     ctx.require('labile.some', 5, 'compounds with labile hydrogen must be covered')
     ctx.require('has.D', 5, 'compounds already holding deuterium must be covered')
+    for arg in ('string', 'string+keyword', 'dict+keyword', 'formula', 'formula[None]+density',
+                'formula[None]+natural_density', 'formula[default]+density', 'formula[default]+natural_density',
+                'string[@]+density', 'string[@n]+natural_density'):
+        ctx.require('arg.' + arg, 2, 'argument form %s of D2O_sld / D2O_match not exercised' % arg)
+    for o in ('@', '@n', 'density', 'natural_density'):
+        for r in ('density', 'natural_density'):
+            ctx.require('arg.formula[%s]+%s' % (o, r), 5,
+                        'Formula object carrying a density (%s) with the %s= keyword not exercised' % (o, r))
+    ctx.require('arg.scaled_formula_object', 5, 'n*formula objects not exercised')
+    ctx.require('density.extreme', 10, 'no very small / very large density')
 
 
 # ------------------------------------------------------------------ model helpers
@@ -312,19 +322,22 @@ def _compound_case(ctx):
     rng = ctx.rng
     bio, anyel, special = _state['pools']
     parts = []       # [Z, A, count, count text or None] in written order
-    for _ in range(rng.randint(1, 5)):
+    lone = rng.random() < 0.07       # one kind of atom only: a Formula object then has the element's density
+    for _ in range(1 if lone else rng.randint(1, 5)):
         r = rng.random()
         z, a = rng.choice(bio) if r < 0.7 else rng.choice(anyel) if r < 0.9 else rng.choice(special)
         c, t = _count(rng)
         parts.append([z, a, c, t])
-    if rng.random() < 0.6:
+    if rng.random() < 0.6 and not lone:
         c, t = _count(rng)
         parts.insert(rng.randint(0, len(parts)), [1, 0, c, t])
-    if rng.random() < 0.35:
+    if rng.random() < 0.35 and not lone:
         c, t = _count(rng)
         parts.insert(rng.randint(0, len(parts)), [1, 2, c, t])
     r = rng.random()
-    if r < 0.7:
+    if lone and r < 0.3:
+        parts = [[1, 1, float(rng.choice([1, 2, 4])), None]]           # nothing but labile hydrogen
+    elif r < 0.7 and not lone:
         nparts = 1 if rng.random() < 0.8 else 2
         for _ in range(nparts):
             c, t = _count(rng) if rng.random() < 0.3 else (float(rng.choice([1, 1, 2, 3, 4, 6, 10, 25])), None)
@@ -336,14 +349,45 @@ def _compound_case(ctx):
             t = '' if (c == 1 and rng.random() < 0.7) else '%d' % c
         text += sym + t
     dens = float('%.5g' % (10 ** rng.uniform(-1.3, 1.3)))
-    form = rng.choices(['string', 'formula', 'dict'], [0.6, 0.3, 0.1])[0]
+    single = len({(z, a) for z, a, _c, _t in parts}) == 1
+    form = rng.choices(['string', 'formula', 'dict'], [0.2, 0.7, 0.1] if single else [0.5, 0.4, 0.1])[0]
+    own = None
+    r = rng.random()
     if form == 'dict':
         route = rng.choice(['density', 'natural_density'])
-    else:
+    elif form == 'string':
         route = rng.choice(['density', 'natural_density', '@', '@n'])
+        if r < 0.12:
+            # a density tag in the text AND a keyword: the explicit keyword is the density of the call
+            own = {'route': rng.choice(['@', '@n'])}
+            route = rng.choice(['density', 'natural_density'])
+    elif r < 0.3:
+        route = rng.choice(['density', 'natural_density', '@', '@n'])     # carried by the object, no keyword
+    else:
+        # a Formula OBJECT (without density / with its own density) AND a density keyword in the call
+        route = rng.choice(['density', 'natural_density'] if single else ['density', 'natural_density', 'natural_density'])
+        if r < 0.45 and not single:
+            own = {'route': None}
+        else:
+            own = {'route': rng.choice(['@', '@n', 'density', 'natural_density']
+                                       + (['default', 'default', 'default', 'default'] if single else []))}
+        own['build'] = 'dict' if own['route'] not in ('@', '@n') and rng.random() < 0.25 else 'string'
+        if rng.random() < 0.2:
+            own['scale'] = rng.choice([2, 3, 0.5, 1000, 0.001, 1])      # the object is n*formula(...)
+    if own is not None and own['route'] not in (None, 'default'):
+        # the density the object / the text carries differs from the one asked for in the call
+        own['density'] = float('%.5g' % (10 ** rng.uniform(-1.3, 1.3)))
+    if route in ('density', 'natural_density') and rng.random() < 0.08:
+        dens = float('%.5g' % (10 ** rng.uniform(-12, 4)))               # residual gas .. neutron-star crust
     case = {'kind': 'compound', 'parts': [[z, a, c] for z, a, c, _t in parts], 'text': text,
             'density': dens, 'route': route, 'form': form,
             'positional': rng.random() < 0.5}
+    if own is not None:
+        case['own'] = own
+    if rng.random() < 0.3:
+        case['int_fractions'] = True         # 0 and 1 of the grid passed as Python ints
+    if rng.random() < 0.1:
+        case['extra_kw'] = rng.choice(['name', 'table', 'name+table'])
     _add_wavelength(case, rng)
     ds = [0.0, 1.0, float('%.4g' % rng.random())]
     vs = [0.0, 1.0, rng.choice([0.5, float('%.4g' % rng.random())])]
@@ -440,6 +484,23 @@ def _library_compound(case, atoms):
     import periodictable as pt
     text, route, form, dens = case['text'], case['route'], case['form'], case['density']
     kw = {}
+    own = case.get('own')
+    if own is not None:
+        # the call names the density by keyword; the text / the object may carry another one
+        kw[route] = dens
+        oroute, okw, s = own['route'], {}, text
+        if oroute == '@':
+            s = '%s@%r' % (text, own['density'])
+        elif oroute == '@n':
+            s = '%s@%rn' % (text, own['density'])
+        elif oroute in ('density', 'natural_density'):
+            okw[oroute] = own['density']
+        if form == 'string':
+            return s, kw
+        f = pt.formula(_lib_atoms(atoms) if own.get('build') == 'dict' else s, **okw)
+        if 'scale' in own:
+            f = own['scale'] * f
+        return f, kw
     if form == 'dict':
         comp = _lib_atoms(atoms)
         kw[route] = dens
@@ -527,7 +588,29 @@ def check_compound(ctx, case):
     model = Model(atoms, rho, wlkw)
     comp, kw = _library_compound(case, atoms)
     kw.update(wlkw)
-    what = 'D2O_sld(%s%s)' % (case['text'], ', ' + case['route'] + '=%r' % case['density'])
+    own = case.get('own')
+    if 'name' in case.get('extra_kw', ''):
+        kw['name'] = 'sample'
+    if 'table' in case.get('extra_kw', ''):
+        import periodictable as pt
+        kw['table'] = pt.elements
+    if own is None:
+        what = 'D2O_sld(%s%s)' % (case['text'], ', ' + case['route'] + '=%r' % case['density'])
+        arg = case['form'] + ('+keyword' if case['form'] != 'formula' and case['route'] in ('density', 'natural_density')
+                              else '')
+    else:
+        carried = ('no density' if own['route'] is None else 'the density of its only element' if own['route'] == 'default'
+                   else '%s %r' % (own['route'], own['density']))
+        what = ('D2O_sld(%s%s carrying %s, %s=%r)'
+                % ('%r*' % own['scale'] if 'scale' in own else '', 'string %s' % case['text'] if case['form'] == 'string'
+                   else 'Formula object of %s' % case['text'], carried, case['route'], case['density']))
+        arg = '%s[%s]+%s' % (case['form'], own['route'], case['route'])
+        if 'scale' in own:
+            ctx.count('arg.scaled_formula_object')
+    ctx.count('arg.' + arg)
+    if case['density'] < 1e-3 or case['density'] > 100:
+        ctx.count('density.extreme')
+    snapshot = (comp.structure, comp.density, comp.name) if hasattr(comp, 'structure') else None
     if _features(ctx, atoms, rho):
         ctx.distinct_case((tuple(sorted(atoms.items())), case['route'], case['form'], case['density'],
                            repr(case.get('wavelength')), case.get('energy')))
@@ -537,10 +620,13 @@ def check_compound(ctx, case):
                        else 'default' if 'wavelength' not in case else 'scalar'))
 
     def call(v, d):
+        if case.get('int_fractions'):
+            v = int(v) if v in (0, 1) else v
+            d = int(d) if d in (0, 1) else d
         if case['positional']:
             return nsf.D2O_sld(comp, v, d, **dict(kw))
         return nsf.D2O_sld(comp, volume_fraction=v, D2O_fraction=d, **dict(kw))
-    feat = dict(nl=atoms.get(H1, 0), hasD=HD in atoms, route=case['route'], form=case['form'])
+    feat = dict(nl=atoms.get(H1, 0), hasD=HD in atoms, route=case['route'], form=case['form'], arg=arg)
     _check_grid(ctx, call, model, case['grid'], what, **feat)
     # defaults: volume_fraction=1, D2O_fraction=0
     got = nsf.D2O_sld(comp, **dict(kw))
@@ -552,7 +638,14 @@ def check_compound(ctx, case):
                       field='D2O_sld.defaults', **feat)
     ds, sld = nsf.D2O_match(comp, **dict(kw))
     _check_match(ctx, ds, sld, lambda v, d: nsf.D2O_sld(comp, v, d, **dict(kw))[0], model,
-                 'D2O_match(%s, %s=%r)' % (case['text'], case['route'], case['density']), **feat)
+                 'D2O_match' + what[len('D2O_sld'):], **feat)
+    if snapshot is not None:
+        # the caller's Formula object is an input: the same object must serve the next call as it served this one
+        ctx.evaluated(what='argument-unchanged')
+        now = (comp.structure, comp.density, comp.name)
+        if now != snapshot:
+            ctx.violation('%s: the Formula object passed in was modified: (structure, density, name) %r -> %r'
+                          % (what, snapshot, now), field='argument-modified', **feat)
 
 
 def _build_molecule(case):
